@@ -170,7 +170,7 @@ def variants_for(prop):
 
 # seeded changes the checks are known not to alarm on, with the exit status they do give and the reason (DESIGN.md 8.8)
 SEEDED_EXPECTED = {
-    "C09-a": 2,      # size accounting rewritten incrementally: outside the capacity model -> UNDECIDED (exit 2), never a guess
+    # (none at the moment: C09-a is decided since the linear accounting model, DESIGN.md 8.8)
 }
 
 
